@@ -64,7 +64,7 @@ Lemma drop_prefix_app a b : drop_prefix a (a ++ b) = Some b.
 Proof. induction a as [|x a IH]; cbn; [reflexivity|]. now rewrite N.eqb_refl. Qed.
 
 Lemma drop_suffix_app t a : drop_suffix t (a ++ t) = Some a.
-Proof. unfold drop_suffix. rewrite rev_app_distr, drop_prefix_app. now rewrite rev_involutive. Qed.
+Proof. unfold drop_suffix. rewrite ?frev_eq. rewrite rev_app_distr, drop_prefix_app. now rewrite frev_eq, rev_involutive. Qed.
 
 Lemma extract_prefix_colon m t : extract_prefix (m ++ colon_sp ++ t) t = (m, 0).
 Proof.
